@@ -25,8 +25,9 @@ type mop struct {
 }
 
 type metaMachine struct {
-	a, b   *machine
-	nExtra int
+	a, b     *machine
+	nExtra   int
+	diverged bool
 }
 
 func newMeta() pbt.Machine[mop] {
@@ -56,7 +57,39 @@ func (mm *metaMachine) Next(t *rapid.T) mop {
 	return o
 }
 
+// sameShape tells whether both runs accepted the same operations so far: same pools, budgets, rates, end
+// heights and stakes. The code's acceptance of a top-up depends on the recorded (not yet accrued) remaining
+// budget, which an extra harvest in the same block changes - after such a split the runs are different
+// histories and are not compared any more.
+func (mm *metaMachine) sameShape() bool {
+	if len(mm.a.pools) != len(mm.b.pools) {
+		return false
+	}
+	for i, pa := range mm.a.pools {
+		pb := mm.b.pools[i]
+		if pa.end != pb.end || pa.start != pb.start || pa.refunded != pb.refunded || pa.total.Cmp(pb.total) != 0 || len(pa.rules) != len(pb.rules) {
+			return false
+		}
+		for j, ra := range pa.rules {
+			rb := pb.rules[j]
+			if ra.denom != rb.denom || ra.total.Cmp(rb.total) != 0 || ra.rate.Cmp(rb.rate) != 0 {
+				return false
+			}
+		}
+		for _, k := range pa.farmerIdx() {
+			fb, ok := pb.farmers[k]
+			if !ok || pa.farmers[k].stake.Cmp(fb.stake) != 0 {
+				return false
+			}
+		}
+	}
+	return true
+}
+
 func (mm *metaMachine) Apply(o mop) error {
+	if mm.diverged {
+		return nil
+	}
 	if err := mm.a.Apply(o.Op); err != nil {
 		return err
 	}
@@ -71,6 +104,10 @@ func (mm *metaMachine) Apply(o mop) error {
 	}
 	if err := mm.b.Apply(o.Op); err != nil {
 		return err
+	}
+	if !mm.sameShape() {
+		mm.diverged = true
+		return nil
 	}
 	return mm.compare()
 }
@@ -132,17 +169,27 @@ func (mm *metaMachine) pending(m *machine, p *mpool, k int) map[string]*big.Int 
 }
 
 func (mm *metaMachine) Finish() error {
+	if mm.diverged {
+		return nil
+	}
 	if err := mm.a.Finish(); err != nil {
 		return err
 	}
 	if err := mm.b.Finish(); err != nil {
 		return err
 	}
+	if !mm.sameShape() {
+		mm.diverged = true
+		return nil
+	}
 	return mm.compare()
 }
 
 func (mm *metaMachine) Classify() (bool, []string) {
 	nt, cl := mm.a.Classify()
+	if mm.diverged {
+		return false, []string{"runs-diverged-on-acceptance"}
+	}
 	if mm.nExtra > 0 {
 		cl = append(cl, "extra-harvests")
 	}
